@@ -85,6 +85,37 @@ func VF_C01_L1_Converge() {
 		return `{"collection":[` + strings.Join(svcCol, ",") + `]}`
 	}
 	lastN := map[*vfRefClient]int{}
+	// staleness: the service state after every state event (history), the
+	// history length at which each numbered custom event was emitted, and
+	// per client the earliest history entry its hand-over snapshot equals.
+	// A custom event emitted before a state the client was handed must not
+	// be delivered after the hand-over.
+	history := []string{get()}
+	customAt := map[int]int{}
+	snapAt := map[*vfRefClient]int{}
+	render := func(ref *vfRefClient) (string, bool) {
+		res, ok := ref.store[rid]
+		if !ok {
+			return "", false
+		}
+		if res.typ == 'c' {
+			return `{"collection":[` + strings.Join(res.col, ",") + `]}`, true
+		}
+		var sb strings.Builder
+		sb.WriteString(`{"model":{`)
+		first := true
+		for _, k := range []string{"a", "b", "c", "d", "s"} {
+			if v, ok := res.model[k]; ok {
+				if !first {
+					sb.WriteByte(',')
+				}
+				first = false
+				sb.WriteString(`"` + k + `":` + v)
+			}
+		}
+		sb.WriteString(`}}`)
+		return sb.String(), true
+	}
 	observe := func() {
 		for _, p := range []struct {
 			r   *vfRun
@@ -98,6 +129,16 @@ func VF_C01_L1_Converge() {
 					}
 					if it != nil && fr.Error == nil {
 						p.ref.response(it.kind.verb, it.kind.rid, it.kind.count, fr.Result)
+						if it.kind.verb == "subscribe" && it.kind.rid == rid && lp == 0 {
+							if snap, ok := render(p.ref); ok {
+								for e, h := range history {
+									if h == snap {
+										snapAt[p.ref] = e
+										break
+									}
+								}
+							}
+						}
 					}
 					continue
 				}
@@ -108,6 +149,12 @@ func VF_C01_L1_Converge() {
 					}
 					json.Unmarshal(fr.Data, &d)
 					zzvf.Reach("c01l1-custom-delivered")
+					if e, ok := snapAt[p.ref]; ok && lp == 0 {
+						if customAt[d.N] < e {
+							zzvf.Note("custom event " + vfItoa(uint64(d.N)) + " predates the state the client was handed")
+						}
+						zzvf.Assert(customAt[d.N] >= e, "no-event-older-than-the-handed-over-state")
+					}
 					if last, ok := lastN[p.ref]; ok {
 						zzvf.Assert(d.N == last+1, "numbered-events-contiguous-and-ordered")
 					}
@@ -142,7 +189,9 @@ func VF_C01_L1_Converge() {
 	observe()
 	zzvf.Assert(rA.count[rid] == 1, "harness-established-subscription")
 	zzvf.Reach("c01l1-established")
-	clB.lagging = lag
+	if lag {
+		w.lag(clB, true)
+	}
 	bIssued := zzvf.ParamOr("nob", 0) == 1
 	sent, customN := 0, 0
 	for step := 0; step < 40; step++ {
@@ -204,6 +253,7 @@ func VF_C01_L1_Converge() {
 					w.mq.event("event."+rid, "add", []byte(`{"idx":0,"value":1}`))
 				case 3:
 					customN++
+					customAt[customN] = len(history) - 1
 					zzvf.Note("event: custom " + vfItoa(uint64(customN)))
 					w.mq.event("event."+rid, "custom", []byte(`{"n":`+vfItoa(uint64(customN))+`}`))
 				}
@@ -236,6 +286,7 @@ func VF_C01_L1_Converge() {
 				w.mq.event("event."+rid, "remove", []byte(`{"idx":`+vfSigned(idx)+`}`))
 			case 2:
 				customN++
+				customAt[customN] = len(history) - 1
 				zzvf.Note("event: custom " + vfItoa(uint64(customN)))
 				w.mq.event("event."+rid, "custom", []byte(`{"n":`+vfItoa(uint64(customN))+`}`))
 			}
@@ -246,7 +297,7 @@ func VF_C01_L1_Converge() {
 			rB.issue(vfReqKind{method: "subscribe." + rid, verb: "subscribe", rid: rid})
 		case a == drainAct:
 			zzvf.Note("B's worker runs")
-			w.drainConn(clB)
+			w.drainLagged(clB)
 		default:
 			q := pend[a]
 			zzvf.Note("service answers " + q.subject)
@@ -259,10 +310,15 @@ func VF_C01_L1_Converge() {
 				w.mq.answer(q, []byte(`{"result":`+get()+`}`), nil)
 			}
 		}
+		if h := get(); h != history[len(history)-1] {
+			history = append(history, h)
+		}
 		w.settle()
 		observe()
 	}
-	clB.lagging = false
+	if lag {
+		w.lag(clB, false)
+	}
 	w.settle()
 	observe()
 	zzvf.Assert(vfQuiescent(w), "run-reaches-quiescence")
